@@ -60,10 +60,3 @@ Theorem C19_mux_demux_adjoint :
 Proof. intros. rewrite mux_adjoint. apply block_dot_is_demux_pairing. Qed.
 Print Assumptions C19_mux_demux_adjoint.
 
-(* translator tie: the data-flow graph (which output feeds which input) of canonical models of the public groups, regenerated
-   from the live models on every run, is the reviewed one; a changed or dropped promotion / connection breaks this obligation *)
-From Coq Require Import List String.
-From OAS Require Import Wiring WiringReviewed WiringProofs.
-Theorem C19_group_wiring_is_the_reviewed_one : gen_wiring = reviewed_wiring.
-Proof. exact wiring_reviewed. Qed.
-Print Assumptions C19_group_wiring_is_the_reviewed_one.
